@@ -26,6 +26,7 @@ package network
 
 import (
 	"fmt"
+	"runtime/debug"
 	"sort"
 	"strings"
 	"sync"
@@ -87,12 +88,25 @@ func c43FNew(buckets, size int, stats *c43FStats) *c43FSys {
 	s.f.nonce = [16]byte{} // pinned: digests must be identical in every instance (state keys)
 	s.rb = make(chan IncomingMessage, 4)
 	for i := range s.peers {
-		s.conns[i] = &c43Conn{step: &c43Step{frames: make(chan c43Frame), idle: make(chan struct{})}}
+		st := &c43Step{frames: make(chan c43Frame), idle: make(chan struct{}), dead: make(chan struct{})}
+		s.conns[i] = &c43Conn{step: st}
 		s.peers[i], _ = c43NewPeer(s.conns[i], s.rb, c43PeerOpt{inFilter: s.f, queue: 16})
 		wp := s.peers[i]
 		wp.wg.Add(1)
-		go wp.readLoop()
-		<-s.conns[i].step.idle
+		go func() {
+			// a panic of the code under test must become a violation, not a crash of the test binary
+			defer close(st.dead)
+			defer func() {
+				if e := recover(); e != nil {
+					st.panicv = fmt.Sprintf("%v\n%s", e, debug.Stack())
+				}
+			}()
+			wp.readLoop()
+		}()
+		select {
+		case <-st.idle:
+		case <-st.dead:
+		}
 	}
 	return s
 }
@@ -100,7 +114,7 @@ func c43FNew(buckets, size int, stats *c43FStats) *c43FSys {
 func (s *c43FSys) close() {
 	for i := range s.peers {
 		close(s.conns[i].step.frames)
-		s.peers[i].wg.Wait()
+		<-s.conns[i].step.dead
 	}
 }
 
@@ -109,8 +123,22 @@ func (s *c43FSys) deliver(o c43FOp) (handed bool, err error) {
 	payload := []byte(fmt.Sprintf("c43-message-%d", o.msg+1))
 	frame := c43FrameOf(o.tag, payload)
 	st := s.conns[o.peer].step
-	st.frames <- c43Frame{mtype: websocket.BinaryMessage, data: frame, script: c43Script{Chunks: []int{len(frame)}, ErrAt: -1}}
-	<-st.idle
+	dead := func() error {
+		if st.panicv != nil {
+			return ve.Violationf("C43:panic", "read loop of peer %d panicked on delivery %s: %v", o.peer+1, o, st.panicv)
+		}
+		return ve.Violationf("C43:filter-peer-ended", "read loop of peer %d ended on delivery %s", o.peer+1, o)
+	}
+	select {
+	case st.frames <- c43Frame{mtype: websocket.BinaryMessage, data: frame, script: c43Script{Chunks: []int{len(frame)}, ErrAt: -1}}:
+	case <-st.dead:
+		return false, dead()
+	}
+	select {
+	case <-st.idle:
+	case <-st.dead:
+		return false, dead()
+	}
 	select {
 	case m := <-s.rb:
 		if m.Tag != o.tag || string(m.Data) != string(payload) || m.Sender != DisconnectableAddressablePeer(s.peers[o.peer]) {
